@@ -184,15 +184,15 @@ PROPS = {
                         'spawnProcess, pipe draining, process groups, the kill-after-timeout thread', 'released (background) lanes'],
     },
     'C17': {
-        'units': ['ninja_lex', 'ninja_scope', 'shellesc'],
+        'units': ['ninja_lex', 'ninja_scope', 'shellesc', 'ninja_eval'],
         'design_ref': 'DESIGN.md section 4, C17',
         'claim': 'Ninja lexer: a keyword kind is produced exactly when the token bytes are the whole keyword, every byte value '
                  '0x00-0xFF is returned as itself (end of file only at the true end), identifier-specific mode never yields keywords; '
                  'lookupBuildParameterImpl: a build-level binding shadows everything whatever its value, else the rule-level template is evaluated in the '
                  'context of this build statement, else the enclosing scope is asked under the same name; $in/$in_newline are the explicit inputs '
                  'separated by space/newline, $out all outputs, shell-quoted exactly when evaluating "command"; BOUNDED (not counted): '
-                 'a shell-escaped path of up to 3 (quick) bytes, read by a model of POSIX sh word syntax, is exactly one word equal to the path',
-        'not_decided': ['agreement of variable evaluation with Ninja itself (needs Ninja as oracle)', 'evalString, include/subninja scoping', 'the parser'],
+                 'a shell-escaped path of up to 3 (quick) bytes, read by a model of POSIX sh word syntax, is exactly one word equal to the path; evalString in seven steps (literal run, piece, `$` at the end, `$`+newline, single-character escapes, ${name}, $name): every byte read lies inside the string, every step that does not stop the scan advances, a literal piece is a maximal `$`-free run, only `$ ` `$:` `$$` are character escapes, the name looked up is exactly the text between `${` and `}` (identifier characters) or the maximal run of simple identifier characters after `$`',
+        'not_decided': ['agreement of variable evaluation with Ninja itself (needs Ninja as oracle)', 'the composition of the evalString steps over a whole string, include/subninja scoping', 'the parser'],
     },
     'C18': {
         'units': ['ninja_valid', 'ninjadeps'],
@@ -205,7 +205,7 @@ PROPS = {
                         'propagation (closures over the build context)', 'decoding of the stored value (assumed pure)'],
     },
     'C19': {
-        'units': ['mkdeps', 'depinfo', 'ninja_lex', 'buildfile', 'ninja_scope'],
+        'units': ['mkdeps', 'depinfo', 'ninja_lex', 'buildfile', 'ninja_scope', 'ninja_eval'],
         'safety': ['mkdeps', 'depinfo', 'ninja_lex'],
         'design_ref': 'DESIGN.md section 4, C19',
         'claim': 'every dereference in the hand-written parsers is inside the supplied buffer (no terminator assumed), '
